@@ -655,19 +655,33 @@ def unit_sequential(ctx, S):
         if w:
             continue
         tmpd = new_tmpdir() if sc["storage"] == "dir" else None
-        tr, res, st = extract_skeleton(sc, "001", tmpdir=tmpd)
+        seq_case = {"input": {"scenario": {"graph": sc["graph"], "targets": list(sc["targets"]),
+                                           "storage": sc["storage"]}, "runs": ["001", "002"]}}
+        try:
+            tr, res, st = extract_skeleton(sc, "001", tmpdir=tmpd)
+        except Exception as e:  # noqa
+            ctx.violation("context_sequential", "a single-run get_array call on a fresh context fails: %r (scenario %s)"
+                          % (e, sc), dict(seq_case, error=repr(e)))
+            continue
         temp = [i[1] for i in tr.items if i[0] == "register"]
         temp = temp[0] if temp else None
         mc = ModelCfg(sc, tr.items, temp, None)
         m1 = run_model(mc, [1], 0, [])
         ok = (m1["threads"][0]["status"] == ("D",) and m1["threads"][0]["trace"] == tr.labels and not tr.unlabelled)
         tr2 = SkeletonTracer()
+        err2 = None
         with quiet():
             sys.settrace(tr2.glob)
             try:
                 res2 = st.get_array("002", targets_arg(sc), progress_bar=False)
+            except Exception as e:  # noqa
+                err2 = e
             finally:
                 sys.settrace(None)
+        if err2 is not None:
+            ctx.violation("context_sequential", "the second of two successive single-run get_array calls on one context "
+                          "(warm plugin cache) fails: %r (scenario %s)" % (err2, sc), dict(seq_case, error=repr(err2)))
+            continue
         tr2.finish()
         cached = list(st._fixed_plugin_cache[st._context_hash()].keys())
         inv = {v: k for k, v in mc.names.items()}
@@ -741,7 +755,11 @@ def unit_interleave(ctx, S):
     n_fine = 30 if big else (8 if ctx.drift else 5)
     for sc, warm in scenarios(ctx):
         t_sc = lib.now()
-        mc, tr = build_mc(sc, warm)
+        try:
+            mc, tr = build_mc(sc, warm)
+        except Exception as e:  # noqa  (reported by ctx_race/sequential with the concrete call)
+            ctx.notes.append("scenario %s skipped: sequential call fails with %r" % (sc, e))
+            continue
         todo = []
         slow = sc["storage"] == "dir" and not big      # saving to disk dominates: fewer replays in the quick tier
         for _ in range(2 if slow else n_coarse):
@@ -850,7 +868,10 @@ def unit_kernel_crosscheck(ctx, S):
     for sc, warm in [(dict(graph="flat", targets=("src", "aa"), storage="none"), False),
                      (dict(graph="chain", targets=("bb",), storage="none"), False),
                      (dict(graph="two", targets=("aa", "bb"), storage="none"), True)]:
-        mc, tr = build_mc(sc, warm)
+        try:
+            mc, tr = build_mc(sc, warm)
+        except Exception:  # noqa  (reported by ctx_race/sequential)
+            continue
         for _ in range(2):
             ncalls = [1, rng.choice([1, 2])]
             segs = random_coarse(rng, 2)
@@ -1067,9 +1088,14 @@ def replay(ctx, obj):
         from harness.props.c15 import quiet
         sc = dict(inp["scenario"])
         sc["targets"] = tuple(sc["targets"])
-        with quiet():
-            st = make_context(sc, new_tmpdir() if sc["storage"] == "dir" else None)
-            res = [st.get_array(r, targets_arg(sc), progress_bar=False) for r in inp["runs"]]
+        try:
+            with quiet():
+                st = make_context(sc, new_tmpdir() if sc["storage"] == "dir" else None)
+                res = [st.get_array(r, targets_arg(sc), progress_bar=False) for r in inp["runs"]]
+        except Exception as e:  # noqa
+            print("a sequential call fails:", repr(e))
+            cleanup_tmp()
+            return 1
         bad = [r for r, a in zip(inp["runs"], res) if not same_array(a, oracle(sc, r))]
         print("runs whose rows differ from a fresh context:", bad)
         cleanup_tmp()
